@@ -163,6 +163,18 @@
   (when (= st :dead) (put t (- (length t) 1) [st ":dropped"]))
   t)
 
+(defn nil-xform [trace]
+  # value tested with (= nil v) / (not= nil v): final value becomes :N / :V
+  (def t (array/slice trace))
+  (def [st v] (last t))
+  (when (= st :dead)
+    (put t (- (length t) 1) [st (if (= v "nil") ":N" ":V")]))
+  t)
+
+# unused bindings: loads into registers nothing reads; movopt turns them into noops and remove_noops deletes them, so every jump
+# across them (here: the specialised nil tests jmpnn / jmpni of `if` / `while`) must be re-targeted
+(def DEAD ['(def dead1 :d1) '(def dead2 "d2") '(def dead3 3) '(def dead4 [4]) '(def dead5 nil) '(def dead6 dead1) '(def dead7 7)])
+
 (defn strip-args [log]
   (string/join (filter (fn [e] (not (string/has-prefix? "arg" e))) (string/split ";" log)) ";"))
 
@@ -235,6 +247,33 @@
   (add "if-const-nobranch" (mkfn [] (tuple 'if (tuple f ;(map q args)) :T)) []
        (fn [tr] (def t (truthy-xform tr)) (def [st v] (last t)) (when (and (= st :dead) (= v ":F")) (put t (- (length t) 1) [st "nil"])) t))
   (add "not-if" (mkfn ps (tuple 'if (tuple 'not (tuple f ;ps)) :F :T)) args truthy-xform)
+  # the value of the call tested by the specialised nil conditions (= nil v) / (= v nil) / (not= nil v) of if / while, with unused
+  # bindings in the guarded branch / loop body (their removal shifts the jump targets) and live code after the join point
+  (add "ifnil-dead"
+       (mkfn ps (tuple 'def 'v (tuple f ;ps))
+             (tuple 'def 'r (tuple 'if (tuple = nil 'v) (tuple 'do ;DEAD :N) :V))
+             '(def after @[r]) '(in after 0))
+       args nil-xform)
+  (add "ifnil2-dead"
+       (mkfn ps (tuple 'def 'v (tuple f ;ps))
+             # (live code after the jump target, so that a mis-targeted jump lands inside the function)
+             (tuple 'if (tuple = 'v nil) (tuple 'do ;DEAD :N) '(do (def e1 @[:V]) (def e2 @[e1]) (in (in e2 0) 0))))
+       args nil-xform)
+  (add "ifnotnil-dead"
+       (mkfn ps (tuple 'def 'v (tuple f ;ps))
+             (tuple 'def 'r (tuple 'if (tuple not= nil 'v) (tuple 'do ;DEAD :V) :N))
+             '(def after @[r]) '(in after 0))
+       args nil-xform)
+  (add "whilenil-dead"
+       (mkfn ps (tuple 'var 'x (tuple f ;ps)) '(var r :V) '(var n 0)
+             (tuple 'while (tuple = nil 'x) ;DEAD '(set r :N) '(++ n) '(set x n))
+             '(def after @[r n]) '(if (< (in after 1) 2) (in after 0) :looped-twice))
+       args nil-xform)
+  (add "whilenotnil-dead"
+       (mkfn ps (tuple 'var 'x (tuple f ;ps)) '(var r :N) '(var n 0)
+             (tuple 'while (tuple not= nil 'x) ;DEAD '(set r :V) '(++ n) '(set x nil))
+             '(def after @[r n]) '(if (< (in after 1) 2) (in after 0) :looped-twice))
+       args nil-xform)
   r)
 
 (var ncase 0)
